@@ -250,3 +250,15 @@ class OpaqueTable:
 
     def __init__(self, why):
         self.why = why
+
+
+class AbstractKeySet:
+    """an arbitrary set of keys (e.g. the `pairs` hints of the degree reduction, after re-keying): membership is an
+    uninterpreted predicate of the key - whatever the set contains, the proofs that only *branch* on membership hold"""
+    _n = 0
+
+    def __init__(self):
+        import z3
+        from . import theory as T
+        AbstractKeySet._n += 1
+        self.pred = z3.Function("in_keyset_%d" % AbstractKeySet._n, T.Key, T.Bool)
